@@ -1163,7 +1163,7 @@ Proof.
         * destruct J3 as [E'|(j & Hj & Hc & E')].
           -- left. congruence.
           -- right. exists i, j. apply in_seq in Hj. apply negb_true_iff, Nat.eqb_neq in Hc.
-             repeat split; auto; try lia. congruence.
+             repeat split; auto; try lia; congruence.
         * right. exists i', j. auto. }
   destruct (G (seq 0 nb) UINT64_MAX) as (_ & G2 & G3). cbv zeta in G2, G3. cbv zeta. split.
   - intros i j Hi Hj Hne. apply G2; auto. apply in_seq; lia.
